@@ -190,6 +190,21 @@ func (v *View) checkC09(res *Result) {
 		if a.API == "StopWithContext" && a.DelKey {
 			if t := v.termAt(a.Inst, a.Call-1); t != nil {
 				owned := v.ownsLiveAt(a.Inst, t.Token, a.Call)
+				if t.Down >= 0 && t.Cause != "stop" && t.Cause != "teardown" {
+					// another demotion path ended the term while the stop call was waiting for
+					// the election mutex: the call stopped a follower, which deletes nothing
+					owned = false
+					res.Obs["c09.deletekey_term_ended_concurrently"]++
+				}
+				// (the clause presupposes a store that answers the shutdown's own read and
+				// delete: a fault injected into one of them is C03/C06 territory)
+				for _, c := range v.CallsL {
+					if c.Inst == a.Inst && (c.Op == "Get" || c.Op == "Delete") && c.Issue > a.Call && c.Issue < a.Ret && (c.Fault != "" || c.Apply < 0) {
+						owned = false
+						res.Obs["c09.deletekey_store_fault"]++
+						break
+					}
+				}
 				if owned {
 					res.Obs["c09.deletekey_owner"]++
 					if a.RecOK && a.RecID == a.Inst {
@@ -1142,9 +1157,26 @@ func (v *View) checkC11(res *Result) {
 				continue
 			}
 			res.Obs["c11.grace_demotions"]++
+			// the expiry handler decides under the handler mutex and then demotes without it; a
+			// notification that begins after that decision (observable as the handler's yield
+			// site or its "demoting" log line, same goroutine) cannot and need not stop it, and
+			// one still in flight at that point may be ordered either way
+			decision := t.Down
+			for j := t.Down - 1; j >= 0 && j > t.Down-400; j-- {
+				p := v.Ev[j]
+				if p.G != v.Ev[t.Down].G {
+					continue
+				}
+				if (p.Kind == "log" && p.Msg == "demoting_due_to_connection_loss") || (p.Kind == "yield" && p.S == "graceExpiredAfterUnlock") || (p.Kind == "break.hit" && p.Op == "yield:graceExpiredAfterUnlock") {
+					decision = j
+				}
+				if p.Kind == "flag" {
+					break
+				}
+			}
 			var last *note
 			for k := range notes {
-				if notes[k].kind == "D" && notes[k].idx < t.Down {
+				if notes[k].kind == "D" && notes[k].idx < t.Down && (notes[k].idx < decision && (notes[k].ret >= 0 && notes[k].ret < decision || decision == t.Down)) {
 					last = &notes[k]
 				}
 			}
